@@ -3,6 +3,7 @@ package main
 import (
 	"fmt"
 	"strings"
+	"time"
 
 	"github.com/wormhole-foundation/example-near-light-client/fri"
 	gl "github.com/wormhole-foundation/example-near-light-client/goldilocks"
@@ -127,6 +128,7 @@ func runC14(r *Run) {
 		// (i) the enforced facts bound exactly this term by 2^(64-b)
 		em := sym.NewEmitter()
 		em.DefMode = true
+		em.Abstract = func(t *sym.Term) bool { return true } // the value of T is irrelevant: only the facts enforced on it
 		tn := em.Ref(T)
 		for _, c := range w.E.Cons {
 			if c.Kind == sym.CRange && c.A == T {
@@ -139,13 +141,15 @@ func runC14(r *Run) {
 		// (ii) the response depends on the witness the prover supplied
 		em2 := sym.NewEmitter()
 		em2.DefMode = true
+		dep := sym.DependsOn(T, pw)
+		em2.Abstract = func(t *sym.Term) bool { return !dep[t] }
 		t1 := em2.Ref(T)
 		pw2 := w.E.NamedAtom(pw.Name+"_b", "input", pw.Hi)
 		f := em2.Fork("b_", map[*sym.Term]*sym.Term{pw: pw2})
 		t2 := f.Ref(T)
 		em2.Raw(f.String())
 		em2.Assert(fmt.Sprintf("(not (= %s %s))", t1, t2))
-		r.Add(&Ob{Name: fmt.Sprintf("pow-binding[%s]", in.Name), Family: "pow-transcript", Expect: smt.Sat, Script: em2.String(), Site: "proof-of-work response does not depend on the witness", Bound: "whole verifier " + in.Name + ", hashes uninterpreted",
+		r.Add(&Ob{Name: fmt.Sprintf("pow-binding[%s]", in.Name), Family: "pow-transcript", Expect: smt.Sat, Script: em2.String(), Fallback: []string{"cvc5", "z3-new"}, TO: 20 * time.Second, Site: "proof-of-work response does not depend on the witness", Bound: "whole verifier " + in.Name + ", hashes uninterpreted",
 			OnFail: func(res smt.Result) *Violation {
 				return &Violation{What: "the proof-of-work response that is range-checked is independent of the proof-of-work witness (same term for every witness value)", Replay: map[string]any{"kind": "vc", "script": short(em2.String(), 2000)}, Outcome: "solver: unsat for response(witness) != response(witness')"}
 			}})
